@@ -190,6 +190,24 @@ def clear_agree(ctx, rr):
                 rr.fail(ctx.finding('R-CLEAR-AGREE', u, g.node, 'rules given to clear() are not written into the emptied trie'))
             if first_idx(r, lambda e: e is g) < max(first_idx(r, lambda e, c=c: e is c) for c in ctors):
                 rr.fail(ctx.finding('R-CLEAR-AGREE', u, g.node, 'rules are registered before the structures were rebuilt'))
+    mc = P.classes['MemoryStorage'].get('clear')
+    if mc is None:
+        raise AnalysisError('anchor vanished: MemoryStorage.clear')
+    attrs = ctx.E.storage_data_attrs['MemoryStorage']
+    okc = False
+    for a in P.own(mc, (ast.Assign, ast.Delete, ast.Call)):
+        if isinstance(a, ast.Assign) and any(ast.unparse(t) in ['self.' + x for x in attrs] for t in a.targets):
+            okc = isinstance(a.value, ast.Call) and not a.value.args and not a.value.keywords
+        elif isinstance(a, ast.Call) and isinstance(a.func, ast.Attribute) and a.func.attr == 'clear' and ast.unparse(a.func.value) in ['self.' + x for x in attrs]:
+            okc = True
+        elif isinstance(a, ast.Delete):
+            okc = all(ast.unparse(t).replace(' ', '') in ['self.%s[:]' % x for x in attrs] for t in a.targets)
+            if not okc:
+                break
+    rr.ob(ctx.where(mc), 'MemoryStorage.clear discards every block (header included), like truncating a file', ok=okc)
+    if not okc:
+        rr.fail(ctx.finding('R-CLEAR-AGREE', mc, mc.node, 'MemoryStorage.clear does not discard the whole store: after Traph.clear() the in-memory index keeps old blocks '
+                            '(e.g. the header with its webentity-id counter) while a cleared file index starts empty', stmt='MemoryStorage.clear'))
     if len(rows) < 4:
         raise AnalysisError('R-CLEAR-AGREE: table of Traph.clear too small')
     rr.info['rows'] = len(rows)
